@@ -1,2 +1,50 @@
--- stub: driver for C10 not written yet
-def main : IO Unit := pure ()
+import CMacVerif.Model.HydroStep
+import CMacVerif.Util.Bits
+/-!
+Line-protocol driver for C10 (thin; the sweep lists themselves are printed by `drv_c04`).
+
+* `same nx ny nz px py pz cx cy cz  nx' ny' nz' px' py' pz' cx' cy' cz'`
+    → `G <0|1> P <0|1> N <n> <n'>`: do the two layouts describe the same global grid
+      (`cellGrid`), and is `layoutOps` of the first a permutation of `layoutOps` of the second
+      (decided by sorting) — the executable instance of `face_multiset_layout_independent`
+* `seq nx ny nz px py pz cx cy cz`
+    → `P <0|1> N <n> <n'>`: `layoutOps` against `gridOps (cellGrid …)` (`layoutOps_perm_gridOps`)
+-/
+open CMacVerif CMacVerif.Util CMacVerif.HydroGraph CMacVerif.HydroSweeps CMacVerif.HydroStep
+
+def layoutOf (w : Array String) (k : Nat) : Layout × Cells :=
+  (⟨nat! w[k]!, nat! w[k+1]!, nat! w[k+2]!, w[k+3]! == "1", w[k+4]! == "1", w[k+5]! == "1"⟩,
+   ⟨nat! w[k+6]!, nat! w[k+7]!, nat! w[k+8]!⟩)
+
+def axNum : Axis → Nat | .x => 0 | .y => 1 | .z => 2
+
+/-- an injective code of a call -/
+def code : Op → List Nat
+  | .pair ax l r => [0, axNum ax, l.1, l.2.1, l.2.2, r.1, r.2.1, r.2.2]
+  | .ghost ax up x => [1, axNum ax, if up then 1 else 0, x.1, x.2.1, x.2.2]
+
+def lexLe : List Nat → List Nat → Bool
+  | [], _ => true
+  | _ :: _, [] => false
+  | a :: as, b :: bs => a < b || (a == b && lexLe as bs)
+
+def sorted (ops : List Op) : List (List Nat) := (ops.map code).mergeSort (fun a b => lexLe a b)
+
+def b01 (b : Bool) : String := if b then "1" else "0"
+
+def step (_ : Unit) (ws : List String) : Unit × String :=
+  let w := ws.toArray
+  if w[0]! == "same" && w.size == 19 then
+    let (L, c) := layoutOf w 1
+    let (L', c') := layoutOf w 10
+    let a := layoutOps L c
+    let b := layoutOps L' c'
+    ((), s!"G {b01 (decide (cellGrid L c = cellGrid L' c'))} P {b01 (sorted a == sorted b)} N {a.length} {b.length}")
+  else if w[0]! == "seq" && w.size == 10 then
+    let (L, c) := layoutOf w 1
+    let a := layoutOps L c
+    let b := gridOps (cellGrid L c)
+    ((), s!"P {b01 (sorted a == sorted b)} N {a.length} {b.length}")
+  else ((), "bad-op")
+
+def main : IO Unit := runDriver step ()
